@@ -20,7 +20,12 @@ def dirty_after_step(versions, shapes, Pn):
                 w.goal("rejected")
                 return
             shape = w.pick(shapes, "shape")
-            g = P.pgateway(w, version, "json", cb_raises=C.sym_flag(w, "callback_raises"))
+            # the event callback is optional: saving must not depend on one being registered
+            # (forked for one populated shape only; raising / returning is a lazy symbolic flag)
+            callback = w.pick(["registered", "none"], "event_callback") \
+                if shape == shapes[min(1, len(shapes) - 1)] else "registered"
+            g = P.pgateway(w, version, "json", cb_raises=C.sym_flag(w, "callback_raises"),
+                           callback=callback)
             ids = C.gen_network(w, g, shape)
             C.gen_ota(w, g, ids)
             pers = g.gw.tasks.persistence
